@@ -198,6 +198,12 @@ def check(run, ctx):
     else:
         run.ok(V6, "get_relative_path branches", f"{len(branches)} relativising branches canonicalise alike")
 
+    unnormalised = [b for b in branches if not any(isinstance(x, ast.Call) and (dotted(x.func) in ("os.path.normpath", "os.path.abspath", "normpath", "abspath") or call_name(x) == "resolve") for x in ast.walk(b.value))]
+    if branches and not unnormalised:
+        run.ok(V6, "get_relative_path dot segments", "`.` and `..` are collapsed lexically (os.path.normpath) on every relativising branch")
+    else:
+        run.finding(V6, "PathResolver.get_relative_path", "dotdot-not-collapsed", f"`{norm(unnormalised[0].value) if unnormalised else 'no relativising branch'}` keeps `..` components: `tests/../src/a.py` is judged as a file of tests/, not of src/ - the verdict depends on the spelling", gr.loc)
+
     V7 = run.rule("V7", "an allow list is applied whenever its key is present: what skips match_allow_patterns is a key-presence test (`'allow' not in rule`, KeyError, `is None`), never the truthiness of the list", floor=2,
                   decides="`allow: []` allows nothing (every file there is reported), exactly like the global allow list")
     n_allow = 0
